@@ -83,7 +83,9 @@ CHECKS["C06"] = (
     "Theorems: one ln_prior / ln_likelihood value per returned row; row j is a copy of library row full[j/n]; its ln_likelihood is the value at the "
     "evaluation position of that sample, which was computed for exactly that library row; its ln_prior is the library value of that row; with a "
     "shuffled order full = order o good. rs_check / it_check compare rows and both columns with the implementation (library ln_prior injective "
-    "in the row number, stub likelihood known per row) for rejection_sample and iterative_rejection_sample on all paths and option combinations.",
+    "in the row number, stub likelihood known per row) for rejection_sample and iterative_rejection_sample on all paths and option combinations. "
+    "tools/py2v_entry.py regenerates the argument routing of TheJoker.marginal_ln_likelihood / rejection_sample / iterative_rejection_sample from source (Gen/EntryGen.v, accepted only in the pinned statement forms) and Props/C06g.v proves: the in-memory iterative sampler cuts the library and its ln_prior column at the same row (pairs kept, first rows kept), "
+    "the ln_prior handed on is the library object's own column, generator and pool are the sampler's own.",
     "Trusted: as C02.",
     "DESIGN.md 3 (C06)",
 )
